@@ -33,6 +33,7 @@ type c15Cfg struct {
 	Waves    int   `json:"waves"`          // further waves of expiring entries stored while the janitor is (or was) at work
 	Ballast  int   `json:"ballast_entries"` // never-expiring entries in cache 0 (stretches every sweep)
 	Gap      int   `json:"wave_gap_us"`    // pause before each further wave, microseconds
+	Swap     int   `json:"callback_swap"`  // 0 none; 1 SetEvictedCallback(another) after construction; 2 SetEvictedCallback(nil)
 }
 
 var c15Gen = rapid.Custom(func(t *rapid.T) c15Cfg {
@@ -47,6 +48,7 @@ var c15Gen = rapid.Custom(func(t *rapid.T) c15Cfg {
 	c.Waves = []int{1, 3, 4, 6}[uniform(t, 4, "waves")]
 	c.Ballast = []int{0, 50000, 150000}[uniform(t, 3, "ballast")]
 	c.Gap = []int{0, 0, 0, 300, 2500, 15000}[uniform(t, 6, "gap")]
+	c.Swap = []int{0, 0, 1, 2}[uniform(t, 4, "swap")]
 	return c
 })
 
@@ -61,10 +63,59 @@ func (l *ledger) add(k string) {
 	l.mu.Unlock()
 }
 
+func (l *ledger) count() int {
+	l.mu.Lock()
+	defer l.mu.Unlock()
+	return len(l.m)
+}
+
+// checkLedgers: every expired key exactly once in the callback in force when it was removed
+// (effective; nil = none installed), nothing anywhere else.
+func checkLedgers(cfg c15Cfg, led, led2, effective *ledger, expired map[string]bool, what string) string {
+	if effective != nil {
+		t1 := time.Now()
+		for effective.count() < len(expired) && time.Since(t1) < 2*time.Second {
+			time.Sleep(time.Millisecond) // callbacks are fired after the removal: give them a moment
+		}
+	}
+	var problems []string
+	for _, l := range []*ledger{led, led2} {
+		name := "the callback given at construction"
+		if l == led2 {
+			name = "the callback installed later with SetEvictedCallback"
+		}
+		l.mu.Lock()
+		if l == effective {
+			for k := range expired {
+				if l.m[k] != 1 {
+					problems = append(problems, fmt.Sprintf("%s fired %d times in %s (the one in force)", k, l.m[k], name))
+				}
+			}
+			for k, n := range l.m {
+				if !expired[k] {
+					problems = append(problems, fmt.Sprintf("%s (never expiring) fired %d times", k, n))
+				}
+			}
+		} else if len(l.m) > 0 {
+			problems = append(problems, fmt.Sprintf("%d callbacks went to %s, which was not in force when the entries were removed", len(l.m), name))
+		}
+		l.mu.Unlock()
+	}
+	if len(problems) > 0 {
+		sort.Strings(problems)
+		if len(problems) > 6 {
+			problems = problems[:6]
+		}
+		return fmt.Sprintf("%s but the evicted callback ledger is wrong (swap mode %d): %v", what, cfg.Swap, problems)
+	}
+	return ""
+}
+
 type anyCache interface {
 	Set(k string, ttl time.Duration)
 	Count() int
 	DeleteExpired()
+	Swap(l *ledger) // nil: remove the callback
 }
 
 type c15Cache struct{ c cache.Cache }
@@ -75,6 +126,20 @@ type c15CacheOf struct {
 func (c c15Cache) Set(k string, ttl time.Duration)   { c.c.Set(k, 1, ttl) }
 func (c c15Cache) Count() int                        { return c.c.Count() }
 func (c c15Cache) DeleteExpired()                    { c.c.DeleteExpired() }
+func (c c15Cache) Swap(l *ledger) {
+	if l == nil {
+		c.c.SetEvictedCallback(nil)
+		return
+	}
+	c.c.SetEvictedCallback(func(k string, v interface{}) { l.add(k) })
+}
+func (c c15CacheOf) Swap(l *ledger) {
+	if l == nil {
+		c.c.SetEvictedCallback(nil)
+		return
+	}
+	c.c.SetEvictedCallback(func(k string, v int) { l.add(k) })
+}
 func (c c15CacheOf) Set(k string, ttl time.Duration) { c.c.Set(k, 1, ttl) }
 func (c c15CacheOf) Count() int                      { return c.c.Count() }
 func (c c15CacheOf) DeleteExpired()                  { c.c.DeleteExpired() }
@@ -136,6 +201,25 @@ func oneC15(cfg c15Cfg) (viol string, miss string) {
 	caches := make([]anyCache, cfg.Caches)
 	for i := range caches {
 		caches[i] = buildC15(cfg, i, led)
+	}
+	// the callback in force may be replaced at run time: whoever removes entries later (janitor included)
+	// must use the one in force then
+	effective := led
+	if !cfg.CB {
+		effective = nil
+	}
+	led2 := &ledger{m: map[string]int{}}
+	switch cfg.Swap {
+	case 1:
+		for _, c := range caches {
+			c.Swap(led2)
+		}
+		effective = led2
+	case 2:
+		for _, c := range caches {
+			c.Swap(nil)
+		}
+		effective = nil
 	}
 	afterCtor := runtime.NumGoroutine()
 	if cfg.Interval <= 0 && afterCtor > base {
@@ -245,38 +329,8 @@ func oneC15(cfg c15Cfg) (viol string, miss string) {
 			return "", m
 		}
 		stats.Max("max_autoclean_latency_ms", time.Since(t0).Milliseconds())
-		if cfg.CB {
-			// callbacks are fired after the removal: give them a moment
-			t1 := time.Now()
-			for {
-				led.mu.Lock()
-				n := len(led.m)
-				led.mu.Unlock()
-				if n >= len(expired)*1 || time.Since(t1) > 2*time.Second {
-					break
-				}
-				time.Sleep(time.Millisecond)
-			}
-			led.mu.Lock()
-			var problems []string
-			for k := range expired {
-				if led.m[k] != 1 {
-					problems = append(problems, fmt.Sprintf("%s fired %d times", k, led.m[k]))
-				}
-			}
-			for k, n := range led.m {
-				if !expired[k] {
-					problems = append(problems, fmt.Sprintf("%s (never expiring) fired %d times", k, n))
-				}
-			}
-			led.mu.Unlock()
-			if len(problems) > 0 {
-				sort.Strings(problems)
-				if len(problems) > 6 {
-					problems = problems[:6]
-				}
-				return fmt.Sprintf("janitor removed the expired entries but the evicted callback ledger is wrong: %v", problems), ""
-			}
+		if msg := checkLedgers(cfg, led, led2, effective, expired, "the janitor removed the expired entries"); msg != "" {
+			return msg, ""
 		}
 	} else {
 		// (ii) nothing is removed and nothing fires until DeleteExpired is called
@@ -289,11 +343,8 @@ func oneC15(cfg c15Cfg) (viol string, miss string) {
 			}
 			time.Sleep(5 * time.Millisecond)
 		}
-		led.mu.Lock()
-		fired := len(led.m)
-		led.mu.Unlock()
-		if fired != 0 {
-			return fmt.Sprintf("no janitor configured, no removing call made, yet %d callbacks fired", fired), ""
+		if n := led.count() + led2.count(); n != 0 {
+			return fmt.Sprintf("no janitor configured, no removing call made, yet %d callbacks fired", n), ""
 		}
 		for i, c := range caches[:cfg.Caches] {
 			c.DeleteExpired()
@@ -301,13 +352,8 @@ func oneC15(cfg c15Cfg) (viol string, miss string) {
 				return fmt.Sprintf("after DeleteExpired cache %d holds %d entries, expected %d", i, n, cfg.Forever), ""
 			}
 		}
-		if cfg.CB {
-			led.mu.Lock()
-			n := len(led.m)
-			led.mu.Unlock()
-			if n != len(expired) {
-				return fmt.Sprintf("DeleteExpired removed %d expired entries but fired %d callbacks", len(expired), n), ""
-			}
+		if msg := checkLedgers(cfg, led, led2, effective, expired, "DeleteExpired removed the expired entries"); msg != "" {
+			return msg, ""
 		}
 	}
 	// (iii) drop everything: janitors stop, contents are released
